@@ -72,6 +72,11 @@ func deepGen(r *Rng, depth int) *DeepNode {
 			n.Props[k] = &DeepNode{Type: "array", Items: deepGen(r, 0)}
 		}
 	}
+	if r.Chance(25) {
+		// further members are allowed, at a type of their own (often not the type of a declared member)
+		n.AP = Pick(r, []*DeepNode{{Type: "string"}, {Type: "integer"}, {Type: "boolean"}, {Type: "array", Items: &DeepNode{Type: "string"}},
+			{Type: "object", Props: map[string]*DeepNode{"x": {Type: "integer"}, "y": {Type: "string"}}}})
+	}
 	return n
 }
 
@@ -103,6 +108,11 @@ func deepValue(r *Rng, n *DeepNode) any {
 	}
 	if len(m) == 0 {
 		m[keys[0]] = deepValue(r, n.Props[keys[0]])
+	}
+	if n.AP != nil {
+		for _, k := range []string{"extra", "z9", "A"}[:r.Intn(4)] {
+			m[k] = deepValue(r, n.AP)
+		}
 	}
 	return m
 }
